@@ -57,7 +57,7 @@ EXPECTED_PROBES = ["partial_last_batch", "batch_larger_than_set", "grid_invert_b
                    "negative_control_differs", "val_split_in_loop", "reset_after_continue",
                    "seed_given_as_generator", "n_beyond_int16", "n_beyond_uint16", "fifth_epoch_or_later",
                    "seed_ge_2_32", "soft_constraints_on", "tapped_after_warmup",
-                   "same_seed_in_another_interpreter", "zero_iteration_call_before_reset", "run_aborted_mid_epoch"]
+                   "same_seed_in_another_interpreter", "zero_iteration_call_before_reset", "run_aborted_mid_epoch", "seed_given_as_torch_generator"]
 
 _ctx = {}
 
@@ -175,7 +175,7 @@ def gen(rng: Rng, tier, i):
                              ["R", "R", "C", "R"], ["R", "R", "R"], ["Z", "R"], ["Z", "Z", "R"],
                              ["A", "R"], ["N", "A", "R"], ["Z", "A", "R"], ["R", "A", "R"]]),
             "abort_frac": round(rng.fork("abort").random(), 3),
-            "seed_as": rng.pick(["int", "int", "generator"]), "modes": rng.pick([1, 1, 2]),
+            "seed_as": rng.pick(["int", "int", "generator", "torch_generator"]), "modes": rng.pick([1, 1, 2]),
             "global_rng": rng.randrange(10 ** 6),
             # the same seeded recipe in ANOTHER interpreter session with another string-hash salt
             # (PYTHONHASHSEED is a source of nondeterminism the seed must make irrelevant)
@@ -453,6 +453,8 @@ def child_first_run(plan):
                 n_modes=plan.get("modes", 1))
     if plan.get("seed_as") == "generator":
         pt.rng = np.random.default_rng(plan["seed"])
+    elif plan.get("seed_as") == "torch_generator":
+        pt.rng = torch.Generator().manual_seed(int(plan["seed"]) % (2 ** 63))
     log = _record_batches(pt)
     pt.reconstruct(reset=True, num_iters=plan["iters"], optimizer_params=_opt(plan["opt"], 1e-3),
                    batch_size=plan["b"])
@@ -494,6 +496,8 @@ def _run_C(plan, res, viol):
         pt = _build(plan, rng=seed, ratio=plan["ratio"], mode=plan["mode"], n_modes=plan.get("modes", 1))
         if plan.get("seed_as") == "generator":
             pt.rng = np.random.default_rng(seed)   # the seed given as a Generator object
+        elif plan.get("seed_as") == "torch_generator":
+            pt.rng = torch.Generator().manual_seed(int(seed) % (2 ** 63))   # ... as a torch.Generator
         log = _record_batches(pt)
         return pt, log
 
@@ -510,6 +514,8 @@ def _run_C(plan, res, viol):
 
     if plan.get("seed_as") == "generator":
         bump(res["probes"], "seed_given_as_generator")
+    if plan.get("seed_as") == "torch_generator":
+        bump(res["probes"], "seed_given_as_torch_generator")
     try:
         p1, l1 = fresh(plan["seed"])
         L1, V1, S1 = run(p1, l1)
